@@ -64,7 +64,8 @@ def run(ctx):
         events = [e for t in traces if t not in hangs for e in t]
         traces = [t for t in traces if t not in hangs]
     unused = [t[0] for t in traces if t[0].get("unused_steps")]
-    if unused:
+    ctx.extra["scripts_abandoned"] = len(unused)
+    if len(unused) > len(traces) // 50:
         ctx.drift.append("%d scenarios ended before all model steps were used (first scn=%s)"
                          % (len(unused), unused[0].get("scn")))
     if len(unused) > len(traces) // 2:
